@@ -1618,11 +1618,9 @@ class Counter(object):
 
     def addtocounter(self, other):
         self.value += int(other)
-        self.resetcounters()
 
     def setcounter(self, other):
         self.value = int(other)
-        self.resetcounters()
 
     def stepcounter(self):
         self.value += 1
